@@ -6553,6 +6553,13 @@ func (l *Lowerer) concretizeExpressionToScalar(handle ir.ExpressionHandle, scala
 	case ir.ExprSplat:
 		l.concretizeExpressionToScalar(kind.Value, scalar)
 	}
+	// The expression (or its operands) may have changed scalar kind: the
+	// recorded type must follow it.
+	if int(handle) < len(l.currentFunc.ExpressionTypes) {
+		if t, err := ir.ResolveExpressionType(l.module, l.currentFunc, handle); err == nil {
+			l.currentFunc.ExpressionTypes[handle] = t
+		}
+	}
 }
 
 // expandZeroValueToCompose expands a zero-valued vector or matrix type into
